@@ -177,11 +177,16 @@ Definition has_dslash (p : bytes) : bool :=
      | _ => false
      end) p.
 
+(** the empty base is tame: it is what <Routes> / <FlatRoutes> pass to RouteDefs::new_with_base
+    when <Router> has no base ([base.unwrap_or_default()]) *)
 Definition base_untame (b : bytes) : bool :=
-  negb (starts_with_slash b) || ends_with_slash b || has_dslash b.
+  match b with
+  | [] => false
+  | _ => negb (starts_with_slash b) || ends_with_slash b || has_dslash b
+  end.
 
 (** F-C14-b: static texts with a '/' after their first byte, a non-final StaticSegment("/"),
-    or a base that is not of the form /x(/y)* *)
+    or a non-empty base that is not of the form /x(/y)* *)
 Definition k_slash_static (base : option bytes) (rs : list route) : bool :=
   existsb slash_static_flat (gen_routes rs)
   || match base with Some b => base_untame b | None => false end.
